@@ -261,6 +261,11 @@ func (mc *MemoryChannel) appendRdb(writer *MemoryRdbWriter, buf []byte) (int, er
 }
 
 func (mc *MemoryChannel) finishRdb(writer *MemoryRdbWriter, err error) {
+	if err == nil && writer.rdb.bufferedSize() != writer.rdb.size {
+		// closed before the whole snapshot has arrived (a cancelled run closes the writer
+		// without an error) : nobody will append the rest, it must not stay on offer
+		err = io.ErrUnexpectedEOF
+	}
 	seg := writer.currentSegment()
 	if seg != nil {
 		seg.close(err)
